@@ -54,7 +54,7 @@ pub fn scan(ctx: &Ctx, what: &str, file: &[u8], needles: &[(String, Vec<u8>)], c
 }
 
 fn library_block(ctx: &Ctx) {
-    let n = ctx.tier.pick(80, 1500);
+    let n = ctx.tier.pick(80, 5000);
     par_for(n, crate::util::ncpu(), |i| {
         let mut rng = Rng::fork(ctx.seed, &format!("C08-lib-{}", i));
         let (s1, r1, s2, r2) = (rng.arr32(), rng.arr32(), rng.arr32(), rng.arr32());
@@ -193,13 +193,47 @@ fn library_block(ctx: &Ctx) {
     });
 }
 
+/// The only key-dependent clear field is a FRESH ephemeral key: over a history of files written by one
+/// thread (different senders, same recipient, randomness left to the implementation) no two files may
+/// share bytes 4..36 - otherwise an observer links them and can test candidate sender keys.
+fn clear_field_history(ctx: &Ctx) {
+    let mut rng = Rng::fork(ctx.seed, "C08-history");
+    let r = rng.arr32();
+    let r_pub = refspec::pubkey_of(&r);
+    let n = ctx.tier.pick(300, 20_000);
+    let mut seen: std::collections::HashMap<Vec<u8>, usize> = std::collections::HashMap::new();
+    let mut salts: std::collections::HashSet<Vec<u8>> = std::collections::HashSet::new();
+    for i in 0..n {
+        let s = rng.arr32();
+        let s_pub = refspec::pubkey_of(&s);
+        let f = key_encrypt_run(b"same text", &Io::plain(), &KeyEnc { s_priv: &s, s_pub: &s_pub, r_pub: &r_pub, e_priv: None, payload: None });
+        ctx.eval();
+        if !f.outcome.is_ok() || f.out.len() < 132 {
+            ctx.violation("C08:library:encrypt-failed", json!({"i": i}));
+            return;
+        }
+        if let Some(j) = seen.insert(f.out[4..36].to_vec(), i) {
+            ctx.violation("C08:library:clear-ephemeral-field-repeats-across-files", json!({"file_a": j, "file_b": i, "bytes_4_36": hex(&f.out[4..36]), "distance": i - j, "note": "files from different senders, same thread, randomness left to the implementation"}));
+            return;
+        }
+        // salts as the CLI draws them
+        let salt = kestrel_crypto::secure_random(32);
+        if !salts.insert(salt.clone()) {
+            ctx.violation("C08:library:salt-repeats-across-files", json!({"i": i, "salt": hex(&salt)}));
+            return;
+        }
+    }
+    ctx.seen_n("history: clear ephemeral field fresh in every file of a single-thread sequence", n as u64);
+    ctx.distinct(&format!("history|{}", n));
+}
+
 fn random_name(rng: &mut Rng, n: usize) -> String {
     const A: &[u8] = b"abcdefghijklmnopqrstuvwxyzABCDEFGHIJKLMNOPQRSTUVWXYZ0123456789";
     (0..n).map(|_| A[rng.below(A.len() as u64) as usize] as char).collect()
 }
 
 fn cli_block(ctx: &Ctx) {
-    let n = ctx.tier.pick(10, 120);
+    let n = ctx.tier.pick(10, 400);
     par_for(n, crate::util::ncpu(), |i| {
         let mut rng = Rng::fork(ctx.seed, &format!("C08-cli-{}", i));
         let wd = WorkDir::new("c08");
@@ -274,10 +308,12 @@ pub fn run(ctx: &Ctx) {
     );
     ctx.assume("a 12-byte window match by chance has probability < 2^-50 per file");
     library_block(ctx);
+    clear_field_history(ctx);
     cli_block(ctx);
     ctx.require("key mode: scan + length law + identity swap ok", 50);
     ctx.require("password mode: length law", 10);
     ctx.require("cli: scan + length law ok", 5);
+    ctx.require("history: clear ephemeral field fresh", 200);
     ctx.require("key mode with PrivateOnly ephemeral argument", 20);
     ctx.require("key mode with PublicOnly ephemeral argument", 20);
 }
